@@ -35,6 +35,12 @@ CHECKS = {
  "C18": ("same pipeline on twin containers differing only in Container.Router; clause C18.agree (N-version) plus each observation judged by Layer A",
          "Common-fragment tables are enumerated exhaustively by TLC (incl. cross-instantiated requests both templates match) and "
          "generated randomly; every request runs on both real routers.", "6 C18", ROUTING_NOTE),
+ "C05": ("TLC exhaustive model checking of MC_Negotiation (Layer A theorems: membership, no 406 after admission, whitespace/parameter invariance; "
+         "Layer B EntityWriter inside Layer A; legacy parser counter-model refuted) + replay of every state in 7 header styles on the real "
+         "Response.WriteEntity + TLC trace validation (NegoTrace) of random Accept-grammar headers",
+         "The allowed representation set BestSet is defined in TLA+ for every reading the property leaves open; every real write (12 "
+         "repetitions per request to expose map-order nondeterminism) is judged against it.", "6 C05",
+         "Trusted: TLC, Json module, net/http; SP is the only optional whitespace generated; Produces entries have registered writers."),
 }
 
 NOT_YET = "check under construction in this round; see DESIGN.md section 13 (build order)"
